@@ -26,7 +26,7 @@ META = {
 }
 
 SIZES = {1: "one", 2: "lim", 3: "lim1", 6: "lim3"}
-BUFS = {1: "tiny", 2: "lim", 3: "full"}
+BUFS = {1: "tiny", 2: "lim", 3: "full", 4: "short"}  # short: 1..8 bytes less than a full record's plaintext
 OH = 24
 
 
@@ -73,8 +73,12 @@ def random_scenario(rng):
         if kind == "flip":
             adv["cls"] = rng.choice(["len", "typelow", "typehigh", "ct", "tag"])
     steps.append(adv)
+    # read buffers relative to the plaintext sizes of the records on the wire (incl. 1..8 bytes short of them)
+    recsz = sorted({pl} | {s["n"] % pl for s in steps if s["a"] == "write" and s["n"] % pl})
     for _ in range(rng.randrange(0, 5)):
-        steps.append({"a": "read", "n": rng.choice([1, 2, 15, 16, 17, pl // 2, pl - 1, pl, pl + 15, pl + 16, pl + 17, 2 * pl])})
+        r = rng.choice(recsz)
+        steps.append({"a": "read", "n": max(1, rng.choice([1, 2, 15, 16, 17, pl // 2, pl - 1, pl, pl + 15, pl + 16, pl + 17, 2 * pl,
+                                                          r - rng.randrange(1, 9), r - rng.randrange(1, 9), r, r + 1, r + 16]))})
     seg = rng.choice(seg_patterns(pl) + [[rng.randrange(1, 3000) for _ in range(rng.randrange(1, 6))]])
     return {"frame": frame, "proto": rng.choice(["rekey", "gcm"]), "seg": seg, "salt": rng.randrange(1 << 20), "steps": steps}
 
